@@ -502,7 +502,7 @@ func (f *Interface) handleOutsideMessagePacket(hostinfo *HostInfo, messageCounte
 }
 
 func (f *Interface) maybeSendRecvError(endpoint netip.AddrPort, index uint32) {
-	if f.sendRecvErrorConfig.ShouldRecvError(endpoint) {
+	if recvErrorConfig(f.sendRecvErrorConfig.Load()).ShouldRecvError(endpoint) {
 		f.sendRecvError(endpoint, index)
 	}
 }
@@ -521,7 +521,7 @@ func (f *Interface) sendRecvError(endpoint netip.AddrPort, index uint32) {
 }
 
 func (f *Interface) handleRecvError(addr netip.AddrPort, h *header.H) {
-	if !f.acceptRecvErrorConfig.ShouldRecvError(addr) {
+	if !recvErrorConfig(f.acceptRecvErrorConfig.Load()).ShouldRecvError(addr) {
 		f.l.Debug("Recv error received, ignoring",
 			"index", h.RemoteIndex,
 			"udpAddr", addr,
